@@ -3,6 +3,7 @@
 import json, os, re, sys
 sys.path.insert(0, os.path.dirname(os.path.abspath(__file__)))
 from common import *
+from u1000_common import coq_cases_noglob
 
 ck = Check("C07", level="proof")
 broken = []
@@ -41,7 +42,7 @@ shards = 12
 args = [exe, "-work", work, "-out", prefix, "-seed", str(ck.seed), "-shards", str(shards),
         "-testdata", os.path.join(REPO, "unused/testdata/src/example.com")]
 if ck.thorough():
-    args += ["-gen", "3000", "-maxnodes", "30000",
+    args += ["-gen", "900", "-maxnodes", "9000",
              "-corpus", REPO + ":./unused+./pattern+./config+./lintcmd/...+./analysis/...+./go/ir+./staticcheck/...+./simple/...+./stylecheck/..."]
 else:
     args += ["-gen", "90", "-maxnodes", "2500", "-corpus", REPO + ":./unused+./config+./pattern"]
@@ -51,6 +52,8 @@ if rc != 0 or not os.path.exists(prefix + ".json"):
     bail("harness-run", "harness run failed: " + out[-400:], out)
 data = json.load(open(prefix + ".json"))
 stats = data["Stats"]
+if stats.get("analyzer_failed", 0) * 4 > stats.get("generated", 0) + stats.get("corpus", 0):
+    broken.append(("harness", "the analyzer failed on %d packages" % stats.get("analyzer_failed", 0)))
 ck.log("harness done", stats, [l for l in out.splitlines() if l.startswith("[hc07")])
 
 HDR = """From Coq Require Import List NArith. Import ListNotations.
@@ -65,7 +68,7 @@ Definition V := Eval vm_compute in numbered caseD_violation cases.
 Print M.
 Print V.
 """
-res = ck.coq_cases_parallel(files, timeout=3000, jobs=8)
+res = coq_cases_noglob(ck, files, timeout=3000, jobs=12)
 ck.log("cases evaluated")
 
 pkgs = {(p["Shard"], p["Index"]): p for p in data["Packages"] if p["Shard"] >= 0}
